@@ -231,20 +231,27 @@ Definition push_chunk (cap : Z) (buf chunk : bytes) : res bytes :=
 
 Record attested := { ac_aaguid : bytes; ac_id : bytes; ac_key : bytes }.
 
+(* rpIdHash || flags || signCount *)
+Definition ad_header (cap : Z) (rp : bytes) (flags count : Z) : res bytes :=
+  b <- push_chunk cap [] rp ;;
+  b <- push_chunk cap b [flags] ;;
+  push_chunk cap b (be 4 count).
+
+(* impl SerializeAttestedCredentialData for AttestedCredentialData: aaguid || u16 BE length || id || key *)
+Definition ad_acd (cap : Z) (b : bytes) (a : attested) : res bytes :=
+  b <- push_chunk cap b (ac_aaguid a) ;;
+  _ <- (if 65535 <? blen (ac_id a) then ErrOther else Ok tt) ;;
+  b <- push_chunk cap b (be 2 (blen (ac_id a))) ;;
+  b <- push_chunk cap b (ac_id a) ;;
+  push_chunk cap b (ac_key a).
+
 Definition authdata_serialize (T : tables) (e : env) (rp : bytes) (flags count : Z)
   (acd : option attested) (ext : option (ty * val)) : res bytes :=
   let cap := t_authdata_len T in
-  b <- push_chunk cap [] rp ;;
-  b <- push_chunk cap b [flags] ;;
-  b <- push_chunk cap b (be 4 count) ;;
+  b <- ad_header cap rp flags count ;;
   b <- match acd with
        | None => Ok b
-       | Some a =>
-           b <- push_chunk cap b (ac_aaguid a) ;;
-           _ <- (if 65535 <? blen (ac_id a) then ErrOther else Ok tt) ;;
-           b <- push_chunk cap b (be 2 (blen (ac_id a))) ;;
-           b <- push_chunk cap b (ac_id a) ;;
-           push_chunk cap b (ac_key a)
+       | Some a => ad_acd cap b a
        end ;;
   match ext with
   | None => Ok b
